@@ -73,10 +73,16 @@ func (r *entityReaderWriters) accessorAt(mime string) (EntityReaderWriter, bool)
 	if !ok {
 		// retry with reverse lookup
 		// more expensive but we are in an exceptional situation anyway
-		for k, v := range r.accessors {
-			if strings.Contains(mime, k) {
-				return v, true
+		// map iteration order is random: prefer the smallest matching key so that
+		// the same value always selects the same accessor
+		match, found := "", false
+		for k := range r.accessors {
+			if strings.Contains(mime, k) && (!found || k < match) {
+				match, found = k, true
 			}
+		}
+		if found {
+			return r.accessors[match], true
 		}
 	}
 	return er, ok
